@@ -175,6 +175,8 @@ type vCase struct {
 	TLus    int    `json:"tl_us"` // runner.Limit.TimeLimit in us
 	MLkib   int    `json:"ml_kib"`
 	Calib   bool   `json:"calib"` // run once to measure, then again with MemoryLimit = the measurement
+	Scen    string `json:"scen"`  // what the scenario is meant to exercise (judged by TLC)
+	End     string `json:"end"`   // how the program ends afterwards: exit:n | fault:segv | hang (cancelled by the caller)
 }
 
 type vObs struct {
@@ -188,7 +190,8 @@ type vObs struct {
 	Report  []limrun.Line `json:"report"`
 	Setup   string        `json:"setup"`
 	WallMs  int           `json:"wall_ms"`
-	Limited bool          `json:"limited"` // the runner takes a runner.Limit (ptrace, unshare)
+	Limited bool          `json:"limited"`   // the runner takes a runner.Limit (ptrace, unshare)
+	Cancel  bool          `json:"cancelled"` // the driver cancelled the run when the program reported "ready"
 }
 
 func runV(e *limrun.Env, c vCase) []vObs {
@@ -198,23 +201,24 @@ func runV(e *limrun.Env, c vCase) []vObs {
 		var args []string
 		switch c.Prog {
 		case "burn":
-			args = []string{"burn", strconv.Itoa(c.Arg)}
+			args = []string{"burn", strconv.Itoa(c.Arg), c.End}
 		case "grow":
 			args = []string{"grow", strconv.Itoa(c.Arg), "4096"}
 		case "touch":
-			args = []string{"touch", strconv.Itoa(c.Arg)}
+			args = []string{"touch", strconv.Itoa(c.Arg), c.End}
 		default:
 			o.Setup = "bad prog"
 			return o
 		}
 		t0 := time.Now()
-		out := e.Run(limrun.Spec{Runner: c.Runner, Args: args, Child: "none", RLimits: rec.PrepareRLimit(),
+		out := e.Run(limrun.Spec{Runner: c.Runner, Args: args, Child: "none", RLimits: rec.PrepareRLimit(), CancelOnReady: c.End == "hang",
 			Limit: runner.Limit{TimeLimit: time.Duration(c.TLus) * time.Microsecond, MemoryLimit: runner.Size(c.MLkib) << 10}})
 		o.WallMs = int(time.Since(t0) / time.Millisecond)
 		o.Status, o.Exit = int(out.Result.Status), out.Result.ExitStatus
 		o.Err, o.ErrLen, o.Setup = out.Result.Error, len(out.Result.Error), out.Setup
 		o.TimeUs = int(out.Result.Time / time.Microsecond)
 		o.MemKib = int(out.Result.Memory >> 10)
+		o.Cancel = out.Cancelled
 		if out.Report != nil {
 			o.Report = out.Report
 		}
